@@ -5,6 +5,7 @@ import (
 	"fmt"
 	"hash/maphash"
 	"math/big"
+	"reflect"
 	"sort"
 	"strings"
 	"sync"
@@ -93,6 +94,28 @@ func runEqual(hdr Header, c any, src string) CaseResult {
 	x := abs.BuildRep(cm["x"])
 	cx := canon(cm["x"])
 	res := CaseResult{Key: describe(x) + cx}
+	// memory plays no part in JSON equality: a value equals itself, and a slice does not equal a shorter
+	// slice of the same backing array (x[:n-1], or x appended into spare capacity), at the top or nested
+	if rv := reflect.ValueOf(x); rv.IsValid() {
+		res.Evals++
+		if !jsonschema.Equal(x, x) {
+			res.Failures = append(res.Failures, Failure{Kind: "equal", Source: src, Abstract: []any{cm["x"], cm["x"]},
+				Concrete: map[string]any{"x": describe(x), "y": "the same Go value"}, Expected: map[string]any{"Equal": true}, Got: false})
+		}
+		if rv.Kind() == reflect.Slice && rv.Len() >= 1 {
+			short := rv.Slice(0, rv.Len()-1).Interface()
+			pairs := [][2]any{{short, x}, {x, short}, {[]any{short}, []any{x}}, {map[string]any{"k": short}, map[string]any{"k": x}}}
+			for _, pr := range pairs {
+				res.Evals++
+				if jsonschema.Equal(pr[0], pr[1]) {
+					res.Failures = append(res.Failures, Failure{Kind: "equal", Source: src, Abstract: []any{cm["x"], "prefix of x sharing its backing array"},
+						Concrete: map[string]any{"x": describe(pr[0]), "y": describe(pr[1]), "aliasing": "one side is a proper prefix of the other, same backing array"},
+						Expected: map[string]any{"Equal": false}, Got: true})
+					break
+				}
+			}
+		}
+	}
 	sawT, sawF := false, false
 	for j, e := range exp {
 		want := e.(string) == "T"
